@@ -314,6 +314,51 @@ fn check(tier: &str) -> i32 {
             }
         }
     }
+    // ---- tier S: concurrent callers under shuttle (pdl-runtime and the generated code rebuilt with
+    // shuttle's primitives in place of std::sync / thread_local!, see sim/shutsim) ----
+    let mut tier_s = json!({"skipped": "the shuttle build is not available"});
+    if let Some(exe) = std::env::var("VERIF_SHUTSIM").ok().filter(|p| !p.is_empty() && Path::new(p).exists()) {
+        let rounds = env_u64("VERIF_S_ROUNDS", if thorough { 400 } else { 24 });
+        let schedules = env_u64("VERIF_S_SCHEDULES", if thorough { 16 } else { 8 });
+        let ts = Instant::now();
+        match std::process::Command::new(&exe).args(["check", "runtime", &seed.to_string(), &rounds.to_string(), &schedules.to_string()]).env("VERIF_DIR", &verif).stderr(std::process::Stdio::null()).output() {
+            Ok(o) => match serde_json::from_slice::<Value>(&o.stdout) {
+                Ok(v) => {
+                    for x in v["violations"].as_array().cloned().unwrap_or_default() {
+                        let viol = Violation {
+                            law: law_static(x["law"].as_str().unwrap_or("")),
+                            ty: x["type"].as_str().unwrap_or("").to_string(),
+                            module: x["module"].as_str().unwrap_or("").to_string(),
+                            detail: x["detail"].as_str().unwrap_or("").to_string(),
+                            at_event: 0,
+                        };
+                        if let Some(f) = known.matches(&viol) {
+                            known_hits.insert(f["what"].as_str().unwrap_or("known finding").to_string());
+                            continue;
+                        }
+                        if reported.len() < 12 {
+                            let path = out_dir.join("replays").join(format!("C18-{seed}-S{}-{}.json", x["round"], x["sched_seed"]));
+                            let doc = json!({"property": "C18", "tier": "S", "seed": seed, "run": x["round"], "sched_seed": x["sched_seed"],
+                                "violation": {"law": x["law"], "type": x["type"], "detail": x["detail"]},
+                                "replay": format!("bin/check C18 --replay {}", path.display())});
+                            let _ = write_json(&path, &doc);
+                            reported.push((viol, path));
+                        }
+                    }
+                    tier_s = json!({"rounds": v["rounds"], "executions_one_cold_process_each": v["executions"], "events": v["events"], "schedules_per_round": schedules, "wall_s": ts.elapsed().as_secs_f64(),
+                        "scenario": "2-3 shuttle threads, each a 40-event BUF-SIM run on types of hand_temporaries / struct_decl_child_structs / pdltests semantic; scheduling points = every sync primitive or thread-local of pdl-runtime and the generated code (none on the unchanged tree)"});
+                }
+                Err(e) => {
+                    eprintln!("bufsim: harness error: tier S output: {e}");
+                    return 2;
+                }
+            },
+            Err(e) => {
+                eprintln!("bufsim: harness error: tier S: {e}");
+                return 2;
+            }
+        }
+    }
     let wall = t0.elapsed().as_secs_f64();
     if samples.is_empty() {
         samples.push(json!({"note": "no sample selected"}));
@@ -336,6 +381,7 @@ fn check(tier: &str) -> i32 {
             "modules": modules,
             "required_method_panics_not_judged": top_panics.iter().take(12).map(|(k, v)| json!({"where": k, "count": v})).collect::<Vec<_>>(),
             "determinism_selfcheck_runs": sc,
+            "tier_S_shuttle": tier_s,
             "simulated_time": "none: the code under test has no timers; event order is the only notion of time",
             "real_components": ["pdl-runtime trait Packet (provided methods)", "encode/encoded_len/decode of every packet, struct and sized custom-field type pdlc generates for the codec corpus (rebuilt from /repo)", "bytes crate writers Vec, BytesMut, &mut [u8], Limit, Chain"],
             "stubbed_components": ["SimBuf (simulator-owned BufMut: chunk schedule, capacity, prior content)", "TX stream, RX buffer, caller cursor, value pool", "faults on bytes in flight (truncate, flip, dup, drop, insert)"],
@@ -375,6 +421,32 @@ fn replay(file: &Path) -> i32 {
             return 2;
         }
     };
+    if v["tier"] == "S" {
+        let exe = match std::env::var("VERIF_SHUTSIM").ok().filter(|p| !p.is_empty() && Path::new(p).exists()) {
+            Some(e) => e,
+            None => {
+                eprintln!("bufsim: tier S is not built");
+                return 2;
+            }
+        };
+        let one = |sched: &str| -> Option<Value> {
+            let o = std::process::Command::new(&exe).args(["one", "runtime", &v["seed"].to_string(), &v["run"].to_string(), sched]).env("VERIF_DIR", &verif).stderr(std::process::Stdio::null()).output().ok()?;
+            serde_json::from_slice(&o.stdout).ok()
+        };
+        let got = one(&v["sched_seed"].to_string());
+        return match got {
+            Some(g) if g["violations"].as_array().map(|a| !a.is_empty()).unwrap_or(false) => {
+                println!("reproduced under shuttle schedule {}: {}", v["sched_seed"], g["violations"][0]["detail"]);
+                println!("VIOLATION property=C18 replay={}", file.display());
+                1
+            }
+            Some(_) => {
+                println!("not reproduced on the current tree");
+                0
+            }
+            None => 2,
+        };
+    }
     let w = world(&verif);
     let module = v["module"].as_str().unwrap_or("");
     let mut types: Vec<&TypeOps> = Vec::new();
